@@ -20,6 +20,13 @@ Require Import OV.Graph.Syntax OV.Graph.Sem OV.Builder.Strings OV.Builder.Naming
 Import ListNotations.
 Local Open Scope string_scope.
 
+(* Which dtype a literal is promoted with (tape_builder._cast_inputs; C12 owns the theorems, here it is an input
+   of the model, encoded in l_name / l_val by the harness's independent rule and checked by the graph
+   comparison and by the onnxruntime-vs-NumPy oracle): the dtype of the first ir.Value operand at a position
+   with the same schema type variable -- for a HOMOGENEOUS variadic input (Max, Sum, Concat ...) all positions
+   share it --; the dtype of the literal's own Python type (int64 / float32 / bool) when no operand binds the
+   variable, and at every position of a HETEROGENEOUS variadic input after the first (Loop v_initial, Scan
+   initial_state_and_scan_inputs), where `build_computes_trace`'s `lit_val (l_val l)` is that own-typed tensor. *)
 (* a Python literal operand after promotion: `l_key` identifies the cache key (value, dtype) up to
    Python equality, `l_name` is the initializer name used if the key is new: const_<value>_<dtype> for a
    scalar, const_1d_<cache size> / const_str_<cache size> otherwise; `l_val` identifies the tensor *)
